@@ -475,6 +475,9 @@ class C16(QueryFamily):
     explanation = ("C16 theorems: unnest without condition / with a condition on the element (direct structural proofs on the P-model); tie = "
                    "exact row sequences against the model")
 
+    def budget(self, tier):
+        return {'quick': 800, 'thorough': 8000, 'search': 1}.get(tier, 800)
+
     def gen(self, rng, i, tier):
         return gen_query.gen_case_flat(rng, tier)
 
@@ -619,13 +622,13 @@ class C05(QueryFamily):
         if r < 0.5:
             return gen_query.gen_case(rng, nvars=rng.choice([1, 2, 2, 3, 3]), falsy=True, neg=True, maxdepth=3,
                                       select=rng.choice(['all', 'some']), dom_max=4)
-        if r < 0.65:
+        if r < 0.63:
             return gen_query.gen_case_forall(rng, tier)
-        if r < 0.8:
+        if r < 0.78:
             return gen_query.gen_case_sub(rng, tier)
-        if r < 0.84:
+        if r < 0.82:
             return gen_query.gen_case_flat(rng, tier)
-        if r < 0.93:
+        if r < 0.96:
             # the flattened expression used by a disjunction only: the comparator's cache must be keyed per ELEMENT
             return gen_query.gen_case_flat(rng, tier, cond_only=True)
         return gen_query.gen_case_concat(rng, tier)
